@@ -146,6 +146,19 @@ PROPS = {
                  'FileReadWriteVolatile::{read,write}_vectored(_at)_volatile fill exactly the reported prefix of the offered bytes and nothing on error (readv/preadv semantics)',
                  'rule R23: the ghost dirty-log parameter threaded through the real functions is erased by Verus (no run-time meaning); ABSTRACT of copy_nonoverlapping by vx_copy_to_guest'],
     ),
+    'C15': dict(
+        vx_units=['handles'], kx=[],
+        design_ref='DESIGN.md A.4',
+        not_covered=[
+            'descriptor accounting itself (when a File / Arc<HandleData> / MountFd is dropped and closed): Arc/Weak drop and raw fds are outside the model; MountFds (finding D14) and file_handle.rs are not under contract',
+            'read/write/flush/lseek/fallocate/setattr/readdir/readdirplus/do_readdir: that they resolve their handle through get_data/get_dirdata/HandleMap::get with the (handle, inode) of the request is by reading only; the textual writers scan guarantees only that they do not MODIFY the table',
+            'reference accounting of inodes across lookups/forgets (C08) beyond the error paths of create; the inode-handle configuration variants of do_lookup',
+            'interleavings of concurrent requests (sequential model of RwLock/Mutex/atomics)',
+            'PassthroughFs::new / init (syscalls): initial values next_handle = 1, empty table, by reading',
+        ],
+        trusted=['T3 sequential model of RwLock/Mutex/AtomicU64/AtomicBool; BTreeMap (external, Map view, entry API) and std HashMap via vstd; Option::filter / is_some_and by assume_specification; Arc clone = same value',
+                 'T8 contract-only syscall wrappers: open_inode, import, do_lookup, forget, create_file_excl, set_creds, drop_cap_fsetid, sync_fd, stat_fd (handles.py docstring A5); fewer than 2^64-1 handle allocations'],
+    ),
     'C20': dict(
         vx_units=['asyncsrv', 'asyncdevw', 'server'], kx=[],
         design_ref='DESIGN.md A.4',
